@@ -314,8 +314,41 @@ func c12RefreshAfterReregistration(c *run.Ctx) {
 	}
 }
 
+// c12PARForeignPolicy: a client authenticated at the push endpoint cannot borrow another client's policy by naming it in a
+// (repeated) client_id parameter: a scope or audience only the OTHER registration covers is not accepted from it.
+func c12PARForeignPolicy(c *run.Ctx) {
+	if !c.Mine(8) && c.NShards > 8 {
+		return
+	}
+	for _, sst := range []string{"wildcard", "hierarchic", "exact"} {
+		w := world.New(world.Opts{Cfg: func(cfg *fosite.Config) { cfg.ScopeStrategy = implScope[sst] }})
+		w.AddClient(world.ClientSpec{ID: "high", Secret: "s-high", RedirectURIs: []string{"https://high.example/cb"}, GrantTypes: world.AllGrants, ResponseTypes: world.AllResponseTypes,
+			Scopes: []string{"fosite", "admin"}, Audience: []string{"https://api.example/admin"}})
+		w.AddClient(world.ClientSpec{ID: "low", Secret: "s-low", RedirectURIs: []string{"https://high.example/cb", "https://low.example/cb"}, GrantTypes: world.AllGrants, ResponseTypes: world.AllResponseTypes,
+			Scopes: []string{"fosite"}, Audience: []string{"https://api.example/public"}})
+		for _, ids := range [][]string{{"high"}, {"high", "low"}, {"low", "high"}} {
+			for _, what := range []string{"scope", "audience"} {
+				f := url.Values{"client_id": ids, "response_type": {"code"}, "state": {"state-0123456789"}, "redirect_uri": {"https://high.example/cb"}, "scope": {"fosite"}}
+				if what == "scope" {
+					f.Set("scope", "fosite admin")
+				} else {
+					f.Set("audience", "https://api.example/admin")
+				}
+				out := w.PAR(f, world.Basic("low", "s-low"))
+				c.Case(fmt.Sprintf("par authenticated=low client_id=%v out-of-policy-%s strategy=%s accepted=%v err=%s", ids, what, sst, out.Err == nil, out.ErrName))
+				c.Count("c12_out_of_policy_refused", 1)
+				if out.Err == nil {
+					c.Violate(run.Violation{Kind: "out-of-policy-accepted", Key: fmt.Sprintf("out-of-policy-accepted flow=par authenticated-client-borrows-policy client_id=%v %s", ids, what),
+						Detail: fmt.Sprintf("client low (scopes [fosite]) pushed %s outside its registration by naming client_id=%v; request_uri %s", what, ids, out.S("request_uri"))})
+				}
+			}
+		}
+	}
+}
+
 func c12PartialConsent(c *run.Ctx) {
 	c12RefreshAfterReregistration(c)
+	c12PARForeignPolicy(c)
 	if !c.Mine(5) && c.NShards > 5 {
 		return
 	}
